@@ -207,6 +207,7 @@ impl Recorder {
         self.lonely_commits(_shard, _shards);
         self.learn_last_then_flip(_shard, _shards);
         self.memo_boundaries(_shard, _shards);
+        self.derived_then_learn(_shard, _shards);
         for _ in 0..rounds {
             clean_home(&self.home);
             let mut stamp = 1u64;
@@ -680,6 +681,57 @@ impl Recorder {
                 }
                 let o = ctx.finish();
                 self.emit(json!({"ev": "finish", "ongoing": o.ongoing, "panic": o.panic.clone().unwrap_or_default()}));
+            }
+        }
+    }
+
+    /// Directed: what is preselected for base + suffix is DERIVED from the base's learned choice - every time.  The suffixed word
+    /// is typed before anything is learned, the base's choice is learned for the first time, the suffixed word is typed again;
+    /// the base's choice is changed, the suffixed word typed once more - each time compared with a brand-new context over the
+    /// same store (C05 / C06 / C09).
+    fn derived_then_learn(&mut self, shard: usize, shards: usize) {
+        let cfg = Cfg { layout: "phonetic".into(), psug: true, english: true, smart: false, db: true, ..Default::default() };
+        let pairs = [("sesh", "sesher"), ("onno", "onnogulo"), ("amar", "amarta"), ("kotha", "kothay"), ("mon", "mone"), ("sesh", "(seshta)")];
+        for (n, (base, sfx)) in pairs.iter().enumerate() {
+            if n % shards.max(1) != shard % shards.max(1) {
+                continue;
+            }
+            clean_home(&self.home);
+            let mut ctx = match Ctx::new(&cfg, &self.home) { Ok(c) => c, Err(_) => continue };
+            self.emit(json!({"ev": "new", "cfg": cfg_json(&cfg)}));
+            let store = self.home.join("openbangla-keyboard/phonetic-candidate-selection.json");
+            // (text, 0 = finish, k = commit the candidate k places after the preselected one)
+            let steps: Vec<(&str, usize)> = vec![(sfx, 0), (base, 1), (sfx, 0), (base, 1), (sfx, 0), (base, 0)];
+            'steps: for (text, how) in steps {
+                let mut w = Word::new();
+                let mut last = Obs::default();
+                let len = text.chars().count();
+                for (i, ch) in text.chars().enumerate() {
+                    let code = self.keys.code_for_char(ch).unwrap();
+                    let sel = if last.kind == "full" && !last.cands.is_empty() { last.sel.min(last.cands.len() - 1).min(255) as u8 } else { 0 };
+                    let o = ctx.key(code, 0, sel);
+                    if o.kind == "panic" {
+                        self.emit(merge(json!({"ev": "key", "code": code, "mod": 0, "sel": sel, "fresh": "na", "fwhat": ""}), Self::ret_fields(&o)));
+                        break 'steps;
+                    }
+                    w.comp.push(ch);
+                    let (f, what) = if i + 1 == len { self.shadow_compare(&cfg, &w, &o, true, sel) } else { ("skip", String::new()) };
+                    self.emit(merge(json!({"ev": "key", "code": code, "mod": 0, "sel": sel, "fresh": f, "fwhat": what}), Self::ret_fields(&o)));
+                    last = o;
+                }
+                let n_c = last.len();
+                if how == 0 || n_c < 2 {
+                    let o = ctx.finish();
+                    self.emit(json!({"ev": "finish", "ongoing": o.ongoing, "panic": o.panic.clone().unwrap_or_default()}));
+                    continue;
+                }
+                let idx = (last.sel + how) % n_c;
+                let before = std::fs::read(&store).ok();
+                let o = ctx.commit(idx);
+                let after_b = std::fs::read(&store).ok();
+                self.emit(json!({"ev": "commit", "idx": idx, "ongoing": o.ongoing, "panic": o.panic.clone().unwrap_or_default(),
+                                 "filechg": before != after_b, "learnable": last.kind == "full" && idx != last.sel}));
+                if o.kind == "panic" { break 'steps; }
             }
         }
     }
